@@ -76,6 +76,8 @@ type Case struct {
 	// EarlyContext: the application registers its operation handlers, creates the middleware Context, and only then
 	// registers media types and authenticators (then validates, then asks the Context for its handler) (r6)
 	EarlyContext bool `json:"earlyContext,omitempty"`
+	// UntypedDefs: every second security definition is declared without a type
+	UntypedDefs bool `json:"untypedDefs,omitempty"`
 }
 
 const jsonMime = "application/json"
@@ -157,6 +159,10 @@ func (c Case) document(asLoaded bool) []byte {
 		defs := M{}
 		for i, n := range c.Defs {
 			defs[n] = defJSON(i, n)
+			if c.UntypedDefs && i%2 == 1 {
+				// a definition that does not say its type (an incomplete description): declared all the same (r9)
+				defs[n] = M{"description": "declared without a type"}
+			}
 		}
 		doc["securityDefinitions"] = defs
 	}
